@@ -374,7 +374,7 @@ def _(c):
     # first ("it should be used even if the frame is out of sequence")
     c.ensures(
         "post.dispatch",
-        lambda frame, fx: [(r[0], r[2]) for r in fx if r[0] != "call" and r[0] != "observe"]
+        lambda frame, fx: [(r[0], r[2]) for r in fx if r[0] not in ("call", "observe", "ret")]
         == (
             [("ash.handle_ack", (frame,)), ("bellows.ash.AshProtocol.data_frame_received", (frame,))]
             if type(frame) is ash.DataFrame
